@@ -312,8 +312,11 @@ impl Report {
         }
     }
     pub fn violation(&mut self, sig: impl Into<String>, detail: J) {
-        if self.violations.len() < 200 {
-            self.violations.push(Violation { sig: sig.into(), detail });
+        let sig = sig.into();
+        // keep at most 25 witnesses per signature so that one frequent signature cannot crowd out another
+        let same = self.violations.iter().filter(|v| v.sig == sig).count();
+        if same < 25 && self.violations.len() < 600 {
+            self.violations.push(Violation { sig, detail });
         }
     }
     pub fn inconclusive(&mut self, note: impl Into<String>) {
@@ -344,9 +347,7 @@ impl Report {
             self.sample(s);
         }
         for v in other.violations {
-            if self.violations.len() < 200 {
-                self.violations.push(v);
-            }
+            self.violation(v.sig, v.detail);
         }
         self.inconclusive += other.inconclusive;
         for n in other.inconclusive_notes {
